@@ -1,0 +1,23 @@
+//go:build verif
+
+package erc20
+
+// Contracts for the deductive checker in /verif (comment-only; compiled only with -tags verif).
+// C04 / C05 (ERC-20 precompile): IsTransaction classifies exactly the five state-changing methods as transactions (RunSetup refuses
+// those in read-only frames). HandleMethod / Run are NOT under contract: the six query methods have no contracts, and a dispatch
+// contract over opaque callees did not discharge within the time limit (DESIGN.md §12.2).
+
+/*@
+specfunc E20IsTx(n string) bool = n == "transfer" || n == "transferFrom" || n == "approve" || n == "increaseAllowance" || n == "decreaseAllowance"
+specfunc E20IsQuery(n string) bool = n == "name" || n == "symbol" || n == "decimals" || n == "totalSupply" || n == "balanceOf" || n == "allowance"
+
+// every method whose contract changes state (`modifies cstate` / the grant store) must be classified as a transaction, otherwise it
+// runs in read-only frames (STATICCALL) - one clause per such method, so that a missing case is named
+func (Precompile).IsTransaction
+    ensures c05_transfer: methodName == "transfer" ==> result
+    ensures c05_transferFrom: methodName == "transferFrom" ==> result
+    ensures c05_approve: methodName == "approve" ==> result
+    ensures c05_increaseAllowance: methodName == "increaseAllowance" ==> result
+    ensures c05_decreaseAllowance: methodName == "decreaseAllowance" ==> result
+    ensures exact: result == E20IsTx(methodName)
+@*/
